@@ -238,7 +238,11 @@ impl<'a> Seg<'a> {
                 }
             }
             "num" => {
-                self.b.number(Some(num::<usize>(arg)?));
+                if need(arg)? == "none" {
+                    self.b.number(None);
+                } else {
+                    self.b.number(Some(num::<usize>(arg)?));
+                }
             }
             "disc" => {
                 self.b.has_discontinuity(flag(arg)?);
